@@ -92,25 +92,41 @@ def leaves(e):
     return leaves(e[2]) + leaves(e[3])
 
 
-def make_safe(e, rng):
+def etype(e, var_ty):
+    k = e[0]
+    if k == "int":
+        return "int"
+    if k == "bool":
+        return "bool"
+    if k == "var":
+        return var_ty(e[1])
+    if k == "paren":
+        return etype(e[1], var_ty)
+    if k == "un":
+        return "int" if e[1] == "neg" else "bool"
+    return "int" if e[1] in ARITH else "bool"
+
+
+def make_safe(e, rng, var_ty):
     """Rewrite a tree so that Rust's grammar reads the spliced tokens back as the same tree (no operand binds looser
     than its context, `not`/unary minus only on atoms): the function is then outside Known_C01_grouping."""
     def leafify(x):
-        ls = leaves(x)
+        want = etype(x, var_ty)
+        ls = [l for l in leaves(x) if etype(l, var_ty) == want]
         vs = [l for l in ls if l[0] == "var"]
+        if not ls:
+            return ("bool", rng.random() < 0.5) if want == "bool" else ("int", rng.randint(0, 9))
         return rng.choice(vs or ls)
     k = e[0]
     if k == "paren":
-        return ("paren", make_safe(e[1], rng))
+        return ("paren", make_safe(e[1], rng, var_ty))
     if k == "un":
-        c = make_safe(e[2], rng)
+        c = make_safe(e[2], rng, var_ty)
         if rust_level(c) < 14:
             c = leafify(c)
-        if e[1] == "not" and c[0] == "int":
-            c = ("bool", True)
         return ("un", e[1], c)
     if k == "bin":
-        l, r = make_safe(e[2], rng), make_safe(e[3], rng)
+        l, r = make_safe(e[2], rng, var_ty), make_safe(e[3], rng, var_ty)
         if e[1] in RUST_LEVEL:
             lv = RUST_LEVEL[e[1]]
             if rust_level(l) < lv or (lv == 7 and rust_level(l) <= lv):
@@ -411,7 +427,7 @@ class Gen:
 
     def fin(self, e):
         if self.safe:
-            e = make_safe(e, self.rng)
+            e = make_safe(e, self.rng, lambda k: (self.visible(k) or {"ty": "int"})["ty"])
         return parenthesize(e, self.rng, self.paren_extra)
 
     def block(self, depth, in_loop, n, pre=None):
@@ -709,7 +725,7 @@ def build_programs(binary, d, progs):
         if l.startswith("@@ "):
             parts = l.split(" ", 3)
             stem, ok = parts[1], parts[2] == "ok"
-            res[stem] = (ok, parts[3] if len(parts) > 3 else "", os.path.join(env["CARGO_TARGET_DIR"], "release", stem))
+            res[stem] = (ok, (parts[3] if len(parts) > 3 else "").replace("\\n", "\n"), os.path.join(env["CARGO_TARGET_DIR"], "release", stem))
     vlib.log("[c01] built %d generated program(s) in %.1fs" % (len(progs), time.time() - t0))
     for stem, _ in progs:
         if stem not in res:
